@@ -84,7 +84,8 @@ def gen_cases(rng, tier):
                               "P": 10 ** rng.uniform(-4, -1.5), "npol": rng.choice([1, 2]), "pol": rng.choice(["x", "y"]),
                               "r": rng.uniform(0.3, 1.0), "Rl": rng.choice([50.0, 100.0, 1e3]), "bw": rng.uniform(0.7, 1.5),
                               "prop": prop, "D": rng.uniform(-0.0099, 0.0099) * T2, "L": rng.uniform(1, 50),
-                              "instant": None})
+                              "instant": None, "cphase": rng.choice([0.0, np.pi / 2, rng.uniform(-np.pi, np.pi)]),
+                              "detune": rng.random() < 0.3})
     # short records: 3..9 slots, just longer than the 16-sample filter padding (pulse kernels longer than the record, both shapes)
     for _ in range(10 if tier == "quick" else 60):
         nb = rng.choice([3, 4, 5, 6, 7, 8, 9])
@@ -134,6 +135,21 @@ def gen_cases(rng, tier):
                     cases.append({"kind": "ppm", "bits": bits, "M": M, "decision": dec, "sps": sps, "R": rng.choice([1e9, 10e9]), "shape": shape,
                                   "Vpi": 3.5, "loss_dB": rng.choice([1.0, 3.0]), "ER_dB": rng.choice([20.0, 30.0]), "P": 1e-3, "npol": 1,
                                   "pol": "x", "r": 0.9, "Rl": 50.0, "bw": bw, "seed": rng.getrandbits(31)})
+    # weak received signals (-55 … -47 dBm launch) with the DEFAULT dark current: the pedestal i_dark*R_load sits in .noise and is
+    # comparable to the swing; the packaged decisions must cope (they estimate the threshold from the received eye)
+    for kind_, dec in (("ook", None), ("ook", None), ("ppm", "hard"), ("ppm", "hard"), ("ppm", "soft")):
+        P = 10 ** rng.uniform(-8.5, -7.7)
+        base = {"sps": rng.choice([8, 16]), "R": rng.choice([1e9, 10e9]), "shape": rng.choice(["nrz", "gaussian"]), "Vpi": 3.5,
+                "loss_dB": 1.0, "ER_dB": rng.choice([20.0, 30.0]), "P": P, "npol": rng.choice([1, 2]), "pol": "x", "r": 1.0, "Rl": 50.0,
+                "bw": rng.choice([1.0, 1.5]), "prop": "none", "idark": "default", "seed": rng.getrandbits(31),
+                "cphase": rng.choice([0.0, np.pi / 2])}
+        if kind_ == "ook":
+            k2 = rng.choice(["random", "prbs"])
+            cases.append(dict(base, kind="ook", bits=_bits(rng, k2, rng.choice([64, 127, 128])), pattern=k2))
+        else:
+            M = rng.choice([2, 4, 16])
+            kb = M.bit_length() - 1
+            cases.append(dict(base, kind="ppm", bits=[rng.randint(0, 1) for _ in range(48 * kb)], M=M, decision=dec))
     # several links in ONE process with the same PD bandwidth while the sampling rate goes down (a stale filter design or
     # any other state carried from one simulation to the next shows up here)
     for _ in range(2 if tier == "quick" else 8):
@@ -142,6 +158,12 @@ def gen_cases(rng, tier):
                       "nbits": 48, "pattern": rng.choice(["random", "prbs"]), "shape": rng.choice(["nrz", "nrz", "gaussian"]),
                       "Vpi": 3.5, "loss_dB": 3.0, "ER_dB": rng.choice([13.0, 30.0]), "P": 1e-3, "npol": rng.choice([1, 2]), "pol": "x",
                       "r": 0.9, "Rl": 50.0, "bw": 0.7, "prop": "none", "seed": rng.getrandbits(31)})
+    for _ in range(2 if tier == "quick" else 8):
+        R0 = rng.choice([10e9, 40e9])
+        cases.append({"kind": "sweep", "sps_seq": [{"sps": 16, "R": R0}, {"R": R0 / 4}, {"R": R0 / 10}, {"sps": 8, "R": R0}], "R": R0,
+                      "nbits": 48, "pattern": rng.choice(["random", "prbs"]), "shape": rng.choice(["nrz", "gaussian"]),
+                      "Vpi": 3.5, "loss_dB": 3.0, "ER_dB": 30.0, "P": 1e-3, "npol": rng.choice([1, 2]), "pol": "x",
+                      "r": 0.9, "Rl": 50.0, "bw": 0.75, "prop": "none", "seed": rng.getrandbits(31)})
     for _ in range(30 if tier == "quick" else 300):
         n = rng.choice([1, 2, 7, 64, 255, 300, 600, 2100])
         tx = [rng.randint(0, 1) for _ in range(n)]
@@ -171,12 +193,16 @@ def _run_chain(case, bits, cw=None, pol=None):
     n = len(bits) * case["sps"]
     x = dev.DAC(bits, Vout=case["Vpi"], bias=0.0, pulse_shape="gaussian" if case.get("shape") == "gaussian" else "nrz")
     amp = np.sqrt(case["P"])
+    # the CW carrier is any constant-power field: a constant phase, or (without dispersion) a frequency offset of R/16
+    car = np.full(n, amp, dtype=complex) * np.exp(1j * case.get("cphase", 0.0))
+    if case.get("detune") and case.get("prop", "none") == "none":
+        car = car * np.exp(2j * np.pi * (case["R"] / 16.0) * np.arange(n) / (case["sps"] * case["R"]))
     if cw is not None:
         pass                                     # a carrier object handed in by the caller (shared between tributaries)
     elif case["npol"] == 1:
-        cw = optical_signal(np.full(n, amp, dtype=complex))
+        cw = optical_signal(car)
     else:
-        cw = optical_signal(np.array([np.full(n, amp, dtype=complex), np.full(n, amp, dtype=complex)]))
+        cw = optical_signal(np.array([car, car.copy()]))
     pol = pol or (case["pol"] if case["npol"] == 2 else "x")
     y = dev.MZM(cw, x, bias=case["Vpi"], Vpi=case["Vpi"], loss_dB=case["loss_dB"], ER_dB=case["ER_dB"], pol=pol)
     if case.get("prop") == "dm":
@@ -192,7 +218,10 @@ def _run_chain(case, bits, cw=None, pol=None):
         return orig(sig, BW, *a, **k)
     dev.LPF = lpf_spy
     try:
-        z = dev.PD(y, BW=case["bw"] * case["R"], r=case["r"], R_load=case["Rl"], include_noise="ase-only", i_dark=0.0)
+        if case.get("idark") == "default":       # the documented default dark current (10 nA): a pedestal carried in .noise
+            z = dev.PD(y, BW=case["bw"] * case["R"], r=case["r"], R_load=case["Rl"], include_noise="ase-only")
+        else:
+            z = dev.PD(y, BW=case["bw"] * case["R"], r=case["r"], R_load=case["Rl"], include_noise="ase-only", i_dark=0.0)
     finally:
         dev.LPF = orig
     return z, spy
@@ -256,9 +285,14 @@ def run_impl(case):
                 rr = __import__("random").Random(case["seed"])
                 steps = []
                 for sps in case["sps_seq"]:
-                    gv(sps=sps, R=case["R"])
+                    if isinstance(sps, dict):          # a gv(...) call exactly as written, e.g. only the slot rate lowered
+                        gv(**sps)
+                        c2 = dict(case, sps=int(gv.sps), R=float(gv.R))
+                        sps = int(gv.sps)
+                    else:
+                        gv(sps=sps, R=case["R"])
+                        c2 = dict(case, sps=sps)
                     bits = _bits(rr, case["pattern"], case["nbits"])
-                    c2 = dict(case, sps=sps)
                     with time_limit(120):
                         z, _ = _run_chain(c2, bits)
                         smp = dev.SAMPLER(z, gv.sps // 2)
@@ -406,5 +440,5 @@ def nontrivial_key(case, res):
     if case["kind"] == "counter":
         return ("counter", tuple(case["tx"]), tuple(case["flip"]), case["module"], case["form"]) if len(case["tx"]) > 1 else None
     if case["kind"] == "sweep":
-        return ("sweep", tuple(case["sps_seq"]), case["R"], case["shape"], case["seed"])
+        return ("sweep", repr(case["sps_seq"]), case["R"], case["shape"], case["seed"])
     return (case["kind"], tuple(case["bits"]), case["sps"], case["R"], case.get("shape"), case.get("prop"), case["npol"], case["ER_dB"], case.get("M"), case.get("decision"))
